@@ -37,8 +37,9 @@ SCOPES = {
     'S1': dict(names='bc', occs=cm.OCC5, max_leaves=3, canon_swap=True),
     'S2': dict(names='abwW', occs=[(1, 1), (0, 1), (0, None), (2, 3)], max_leaves=2, canon_swap=False),
     'S3': dict(names='xyz', occs=[(1, 1), (0, 1), (0, None)], max_leaves=2, canon_swap=False),
+    'S5': dict(names='amb', occs=[(1, 1), (0, 1), (0, None)], max_leaves=2, canon_swap=False),
 }
-QUICK_FRACTION = {'S1': 0.04, 'S2': 0.25, 'S3': 1.0}
+QUICK_FRACTION = {'S1': 0.04, 'S2': 0.25, 'S3': 1.0, 'S5': 1.0}
 
 
 def key(ver, m):
